@@ -161,7 +161,8 @@ async def scenario(loop, plan, r):
     app = zshim.make_app()
     app._ezsp = ezsp
     seen = []
-    ezsp.add_callback(lambda *a: seen.append(a))
+    stamped = []  # (time, args) of everything the permanent recorder saw
+    ezsp.add_callback(lambda *a: (seen.append(a), stamped.append((loop.time(), a))))
     base_cb = len(ezsp._callbacks)
     flags = set()
     for n, op in enumerate(plan["ops"]):
@@ -185,6 +186,28 @@ async def scenario(loop, plan, r):
         else:
             coro = ezsp.startScan(scanType=t.EzspNetworkScanType.ENERGY_SCAN if kind == "escan" else t.EzspNetworkScanType.ACTIVE_SCAN,
                                   channelMask=t.Channels.ALL_CHANNELS, duration=2)
+        # other components add and remove their own callbacks while the operation runs
+        foreign = []
+        for t_add, t_rm in op.get("foreign") or []:
+            d = {"calls": [], "added": None, "removed": None, "id": None}
+            foreign.append(d)
+
+            def _add(d=d):
+                d["id"] = ezsp.add_callback(lambda *a, d=d: d["calls"].append((loop.time(), a)))
+                d["added"] = loop.time()
+
+            def _rm(d=d):
+                if d["id"] is not None and d["removed"] is None:
+                    d["removed"] = loop.time()
+                    try:
+                        ezsp.remove_callback(d["id"])
+                    except Exception as ex:
+                        d["exc"] = repr(ex)
+
+            d["rm"] = _rm
+            loop.call_at(t0 + t_add, _add)
+            if t_rm is not None:
+                loop.call_at(t0 + t_rm, _rm)
         task = asyncio.ensure_future(coro)
         if op.get("cancel") is not None:
             # cancellation is relative to the issue instant (the request is seen ~immediately)
@@ -253,6 +276,20 @@ async def scenario(loop, plan, r):
             flags.add("outcome:" + got[0])
         # let every scheduled event land, then look for leaked listeners
         await asyncio.sleep(last_ev)
+        for j, d in enumerate(foreign):
+            d["rm"]()
+            if d.get("exc"):
+                r.bad("C17:foreign-callback-removal-raises", f"{where}: {d['exc']}; plan {plan}")
+                return
+            if d["added"] is None:
+                continue
+            want = [(tm, a) for tm, a in stamped if d["added"] + 1e-7 < tm < d["removed"] - 1e-7]
+            got = [(tm, a) for tm, a in d["calls"] if d["added"] + 1e-7 < tm < d["removed"] - 1e-7]
+            if [a for _, a in got] != [a for _, a in want]:
+                r.bad("C17:foreign-callback-misses-events", f"{where}: listener {j} registered {d['added'] - t0:.4f}..{d['removed'] - t0:.4f} saw "
+                      f"{len(got)} callbacks, the permanent one {len(want)}; plan {plan}")
+                return
+            flags.add("foreign-listener")
         if len(ezsp._callbacks) != base_cb:
             r.bad("C17:callback-leaked", f"{where}: {len(ezsp._callbacks)} callbacks registered, baseline {base_cb}; plan {plan}")
             return
@@ -313,6 +350,13 @@ def op_plan(draw):
                 return x
         return None
 
+    if draw(st.integers(0, 2)) == 0:
+        fg = []
+        for _ in range(draw(st.integers(1, 3))):
+            a = draw(st.sampled_from([0.00011, 0.0033, 0.0305, 0.25, 1.7]))
+            life = draw(st.sampled_from([None, 0.0011, 0.0212, 0.3, 4.0, 11.0]))
+            fg.append([a, None if life is None else round(a + life, 5)])
+        op["foreign"] = fg
     if kind == "ensure":
         op["joined"] = draw(st.integers(0, 5)) == 0
     if kind in ("form", "leave", "ensure"):
